@@ -9,7 +9,6 @@ use smartcore::linalg::naive::dense_matrix::DenseMatrix;
 use smartcore::linalg::stats::MatrixStats;
 use smartcore::linear::linear_regression::{LinearRegression, LinearRegressionParameters, LinearRegressionSolverName};
 use smartcore::linear::ridge_regression::{RidgeRegression, RidgeRegressionParameters, RidgeRegressionSolverName};
-use smartcore::math::num::RealNumber;
 
 // ------------------------------------------------------------------------------------------------
 // tolerances (all relative to the quantities the property names; ε = machine epsilon of the width)
@@ -40,11 +39,11 @@ const AGREE_RIDGE_C: f64 = 1e3;
 /// measured precondition: κ·ε of the system actually solved must stay ≤ this ("cond·eps << 1")
 const MAX_COND_EPS: f64 = 1e-3;
 
-fn round<T: RealNumber>(v: f64) -> f64 {
+fn round<T: SNum>(v: f64) -> f64 {
     f(t::<T>(v))
 }
 
-fn is32<T: RealNumber>() -> bool {
+fn is32<T: SNum>() -> bool {
     width::<T>() == "f32"
 }
 
@@ -80,7 +79,7 @@ fn standardised(d: &Data) -> Mat {
 
 /// Draws (X, y) inside the quantifier: 1 ≤ p ≤ 8, p < n ≤ 80, cond ≤ 1e6 (f32: ≤ 30 / 10), column
 /// scales 1e-2..1e3 (either one per column or one common scale), non-zero column means.
-fn draw_data<T: RealNumber>(c: &mut Case, model: Model) -> Option<Data> {
+fn draw_data<T: SNum>(c: &mut Case, model: Model) -> Option<Data> {
     let p = c.rng.us(1, 8);
     let r = c.rng.f();
     let n = if r < 0.12 {
@@ -184,7 +183,7 @@ fn draw_data<T: RealNumber>(c: &mut Case, model: Model) -> Option<Data> {
 }
 
 /// behavioural / input-class buckets, recorded only for cases that pass all measured preconditions
-fn data_buckets<T: RealNumber>(c: &mut Case, d: &Data) {
+fn data_buckets<T: SNum>(c: &mut Case, d: &Data) {
     let (n, p) = (d.n, d.p);
     c.bucket(&format!("width:{}", width::<T>()));
     c.bucket(&format!("p:{}", p));
@@ -205,7 +204,7 @@ fn data_buckets<T: RealNumber>(c: &mut Case, d: &Data) {
     });
 }
 
-fn describe<T: RealNumber>(c: &mut Case, d: &Data, model: &str, alpha: Option<f64>, extra: Value) {
+fn describe<T: SNum>(c: &mut Case, d: &Data, model: &str, alpha: Option<f64>, extra: Value) {
     c.describe(json!({"model": model, "width": width::<T>(), "n": d.n, "p": d.p, "alpha": alpha, "y_kind": d.ykind,
         "scales": d.scale_mode, "mean_mag": d.mean_mag, "cond_standardised": d.kz, "max_mean_over_std": d.mean_over_std,
         "measured": extra, "X": mat_json(&d.x), "y": d.y}));
@@ -220,7 +219,7 @@ fn residual(x: &Mat, w: &[f64], b: f64, y: &[f64]) -> Vec<f64> {
 }
 
 /// predict(X) == X·w + b row by row
-fn check_predict<T: RealNumber>(c: &mut Case, oracle: &str, sg: &str, d: &Data, w: &[f64], b: f64, pred: Option<Result<Vec<T>, smartcore::error::Failed>>) {
+fn check_predict<T: SNum>(c: &mut Case, oracle: &str, sg: &str, d: &Data, w: &[f64], b: f64, pred: Option<Result<Vec<T>, smartcore::error::Failed>>) {
     let pred = match pred {
         Some(Ok(v)) => fv(&v),
         Some(Err(e)) => {
@@ -262,7 +261,7 @@ struct OlsFit {
     rn: f64,
 }
 
-fn ols_one<T: RealNumber>(c: &mut Case, d: &Data, A: &Mat, cn: &[f64], solver: &str) -> Option<OlsFit> {
+fn ols_one<T: SNum>(c: &mut Case, d: &Data, A: &Mat, cn: &[f64], solver: &str) -> Option<OlsFit> {
     let (n, p) = (d.n, d.p);
     let sg = format!("{}/{}", width::<T>(), solver);
     let xm: DenseMatrix<T> = to_dense(&d.x);
@@ -314,10 +313,31 @@ fn ols_one<T: RealNumber>(c: &mut Case, d: &Data, A: &Mat, cn: &[f64], solver: &
     // (3) predict
     let pred = c.must(&format!("ols.predict({})", solver), || model.predict(&xm));
     check_predict::<T>(c, "ols.predict", &sg, d, &w[..p], b, pred);
+    // (4) call sequence fit → store → restore → predict: the restored model is the same linear map
+    if c.rng.bool(0.15) {
+        let json = c.rng.bool(0.5);
+        let fmt = if json { "json" } else { "bincode" };
+        c.bucket(&format!("sequence:fit-store-restore-predict/{}", fmt));
+        match c.must("ols.restore", || restored(&model, json)) {
+            Some(Ok(m2)) => {
+                let c2 = from_m(m2.coefficients());
+                let b2 = f(m2.intercept());
+                let same = (c2.r, c2.c) == (p, 1) && c2.d.iter().zip(coef.d.iter()).all(|(x, y)| close(*x, *y, 4.0 * e, y.abs())) && close(b2, b, 4.0 * e, b.abs());
+                if c.check(&format!("ols.restored.coefficients/{}", fmt), same, &sg, || format!("restored coefficients {}x{} {:?} / {:e}, fitted {}x{} {:?} / {:e}", c2.r, c2.c, c2.d, b2, coef.r, coef.c, coef.d, b)) {
+                    let pred = c.must("ols.restored.predict", || m2.predict(&xm));
+                    check_predict::<T>(c, &format!("ols.restored.predict/{}", fmt), &sg, d, &c2.d, b2, pred);
+                }
+            }
+            Some(Err(msg)) => {
+                c.check(&format!("ols.restored.ok/{}", fmt), false, &sg, || msg.clone());
+            }
+            None => {}
+        }
+    }
     Some(OlsFit { w, rn })
 }
 
-fn ols_t<T: RealNumber>(c: &mut Case) {
+fn ols_t<T: SNum>(c: &mut Case) {
     let d = match draw_data::<T>(c, Model::Ols) {
         Some(d) => d,
         None => return,
@@ -394,7 +414,7 @@ struct RidgeFit {
     wz: Vec<f64>,
 }
 
-fn ridge_one<T: RealNumber>(c: &mut Case, d: &Data, k: &RidgeCtx, solver: &str) -> Option<RidgeFit> {
+fn ridge_one<T: SNum>(c: &mut Case, d: &Data, k: &RidgeCtx, solver: &str) -> Option<RidgeFit> {
     let (n, p) = (d.n, d.p);
     let sg = format!("{}/{}/{}", width::<T>(), solver, k.mode());
     let xm: DenseMatrix<T> = to_dense(&d.x);
@@ -456,10 +476,31 @@ fn ridge_one<T: RealNumber>(c: &mut Case, d: &Data, k: &RidgeCtx, solver: &str) 
     }
     let pred = c.must(&format!("ridge.predict({})", solver), || model.predict(&xm));
     check_predict::<T>(c, "ridge.predict", &sg, d, &w, b, pred);
+    // call sequence fit → store → restore → predict
+    if c.rng.bool(0.15) {
+        let json = c.rng.bool(0.5);
+        let fmt = if json { "json" } else { "bincode" };
+        c.bucket(&format!("sequence:fit-store-restore-predict/{}", fmt));
+        match c.must("ridge.restore", || restored(&model, json)) {
+            Some(Ok(m2)) => {
+                let c2 = from_m(m2.coefficients());
+                let b2 = f(m2.intercept());
+                let same = (c2.r, c2.c) == (p, 1) && c2.d.iter().zip(coef.d.iter()).all(|(x, y)| close(*x, *y, 4.0 * e, y.abs())) && close(b2, b, 4.0 * e, b.abs());
+                if c.check(&format!("ridge.restored.coefficients/{}", fmt), same, &sg, || format!("restored coefficients {}x{} {:?} / {:e}, fitted {}x{} {:?} / {:e}", c2.r, c2.c, c2.d, b2, coef.r, coef.c, coef.d, b)) {
+                    let pred = c.must("ridge.restored.predict", || m2.predict(&xm));
+                    check_predict::<T>(c, &format!("ridge.restored.predict/{}", fmt), &sg, d, &c2.d, b2, pred);
+                }
+            }
+            Some(Err(msg)) => {
+                c.check(&format!("ridge.restored.ok/{}", fmt), false, &sg, || msg.clone());
+            }
+            None => {}
+        }
+    }
     Some(RidgeFit { wz })
 }
 
-fn ridge_t<T: RealNumber>(c: &mut Case, model: Model) {
+fn ridge_t<T: SNum>(c: &mut Case, model: Model) {
     let normalize = model != Model::RidgeRaw;
     let d = match draw_data::<T>(c, model) {
         Some(d) => d,
@@ -531,15 +572,15 @@ fn ridge_t<T: RealNumber>(c: &mut Case, model: Model) {
     }
 }
 
-fn ridge_norm_t<T: RealNumber>(c: &mut Case) {
+fn ridge_norm_t<T: SNum>(c: &mut Case) {
     ridge_t::<T>(c, Model::RidgeNorm)
 }
 
-fn ridge_raw_t<T: RealNumber>(c: &mut Case) {
+fn ridge_raw_t<T: SNum>(c: &mut Case) {
     ridge_t::<T>(c, Model::RidgeRaw)
 }
 
-fn ridge_offset_t<T: RealNumber>(c: &mut Case) {
+fn ridge_offset_t<T: SNum>(c: &mut Case) {
     ridge_t::<T>(c, Model::RidgeOffset)
 }
 
